@@ -81,6 +81,9 @@ Cases == { MkCase(t, 3, p, fl, pat) : t \in Types, p \in Perms(3), fl \in [1..4 
          \cup (IF Thorough THEN { MkCase(t, 4, p, fl, 2) : t \in {3, 18, 31}, p \in Perms(4), fl \in [1..5 -> {0, 6}] } ELSE {})
          \* one LONG filler (longer than any buffer a reader might skip through) at every position
          \cup UNION { { MkCase(t, 3, p, [i \in 1..4 |-> IF i = j THEN 700 ELSE 0], 1) : p \in Perms(3), j \in 1..4 } : t \in {1, 13, 28, 31} }
+         \* a leading filler that puts the first physical record on a "round" word offset (64, 100, 128, 256, 512):
+         \* offsets that look like something else (a byte offset of the header's end, a power of two)
+         \cup UNION { { MkCase(t, 2, p, [i \in 1..3 |-> IF i = 1 THEN L ELSE 0], 1) : p \in Perms(2), L \in {28, 100, 156, 412, 924} } : t \in {1, 5, 18, 31} }
          \* equal-size records: every permutation of 4 (and of 3), no filler or one filler of a record's size
          \cup UNION { { MkCaseOf(t, 4, p, fl, 0, TRUE) : p \in Perms(4), fl \in OneBig(4, t) } : t \in Types }
          \cup UNION { { MkCaseOf(t, 3, p, fl, 1, TRUE) : p \in Perms(3), fl \in OneBig(3, t) } : t \in Types }
